@@ -437,10 +437,14 @@ class Check:
         self.proof_log = log
         okp, thms, assum, plog = (False, [], "", "")
         if ok and not bad:
-            okp, thms, assum, plog = coq_props(prop_file)
+            # the property files are independent of each other: compile them concurrently
+            from concurrent.futures import ThreadPoolExecutor
+            with ThreadPoolExecutor(max_workers=max(1, min(8, 1 + len(extra_props)))) as ex:
+                futs = [ex.submit(coq_props, pf) for pf in [prop_file] + list(extra_props)]
+                results = [f.result() for f in futs]
+            okp, thms, assum, plog = results[0]
             self.proof_log += plog
-            for ep in extra_props:
-                ok2, thms2, assum2, plog2 = coq_props(ep)
+            for (ok2, thms2, assum2, plog2) in results[1:]:
                 okp = okp and ok2
                 thms = thms + thms2
                 assum = assum + "\n" + assum2
